@@ -175,6 +175,44 @@ func rtInput(target, cur string, l core.BuildLabel, r rtResult) map[string]any {
 	return map[string]any{"target": target, "current_path": cur, "label": js(l), "printed": r.printed, "reparsed": r.re}
 }
 
+// Small cases are collected into CBatch cases: the per-case overhead inside Coq (and the number of case files, each of
+// which loads the Coq libraries) dominates otherwise.  Every inner case still counts as an evaluation.
+type batch struct {
+	terms []string
+	js    []any
+	key   string
+	nontr bool
+}
+
+var openBatches = map[string]*batch{}
+
+func emit(c *lib.Ctx, kind string, size int, term string, j any, key string, nontrivial bool) {
+	b := openBatches[kind]
+	if b == nil {
+		b = &batch{}
+		openBatches[kind] = b
+	}
+	if len(b.terms) > 0 {
+		c.Eval(j, key, nontrivial) // the first inner case is counted by c.Case below
+	} else {
+		b.key, b.nontr = key, nontrivial
+	}
+	b.terms, b.js = append(b.terms, term), append(b.js, j)
+	if len(b.terms) >= size {
+		closeBatch(c, kind)
+	}
+}
+
+func closeBatch(c *lib.Ctx, kind string) {
+	b := openBatches[kind]
+	if b == nil || len(b.terms) == 0 {
+		return
+	}
+	c.Case(lib.App("CBatch", lib.List(b.terms)), map[string]any{"kind": "batch of " + kind, "cases": b.js}, b.key, b.nontr)
+	delete(openBatches, kind)
+	flush(false)
+}
+
 // flush(false) is called after every cheap case: every 8th call emits one pending enumeration group.
 var flush = func(all bool) {}
 
@@ -345,14 +383,13 @@ func genLabelString(r *lib.Rng) string {
 }
 
 func parseCase(c *lib.Ctx, target, cur, sub string, labels map[core.BuildLabel]bool) {
-	defer flush(false)
 	l, err := core.TryParseBuildLabel(target, cur, sub)
 	in := map[string]any{"kind": "parse", "target": target, "current_path": cur, "subrepo_arg": sub}
 	if err == nil {
 		in["label"] = js(l)
 		labels[l] = true
 	}
-	c.Case(lib.App("CParse", lib.Str(target), lib.Str(cur), lib.Str(sub), lib.Opt(err == nil, coqLabel(l))), in,
+	emit(c, "parse", 10, lib.App("CParse", lib.Str(target), lib.Str(cur), lib.Str(sub), lib.Opt(err == nil, coqLabel(l))), in,
 		"parse "+target+"\x00"+cur+"\x00"+sub, err == nil)
 	if err == nil {
 		c.Hist("parse", "accepted")
@@ -522,7 +559,6 @@ func sandboxState(whitelist []core.BuildLabel, dirs []string) *core.BuildState {
 }
 
 func sandboxCase(c *lib.Ctx, state *core.BuildState, t sbxTarget) {
-	defer flush(false)
 	whitelist, dirs := state.Config.Sandbox.ExcludeableTargets, state.Config.Parse.ExperimentalDir
 	bt := core.NewBuildTarget(t.Label)
 	bt.IsFilegroup, bt.IsRemoteFile, bt.Sandbox = t.Filegroup, t.Remote, t.Sandbox
@@ -537,7 +573,7 @@ func sandboxCase(c *lib.Ctx, state *core.BuildState, t sbxTarget) {
 		test = lib.Some(lib.Bool(t.TestSbx))
 	}
 	optsOut := !(!t.Remote && t.Sandbox && (!t.HasTest || t.TestSbx))
-	c.Case(lib.App("CSandbox", coqLabels(whitelist), lib.StrList(dirs),
+	emit(c, "sandbox", 10, lib.App("CSandbox", coqLabels(whitelist), lib.StrList(dirs),
 		lib.App("T", coqLabel(t.Label), lib.Bool(t.Filegroup), lib.Bool(t.Remote), lib.Bool(t.Sandbox), test), lib.Bool(ok)),
 		in, fmt.Sprint("sbx", whitelist, dirs, t), optsOut && len(whitelist) > 0 && !t.Filegroup)
 	// oracle: an opt-out is accepted exactly when the target is selected by a whitelist entry or lies in an experimental directory
@@ -594,12 +630,11 @@ func docExperimental(dirs []string, l core.BuildLabel) bool {
 }
 
 func canSeeCase(c *lib.Ctx, state *core.BuildState, dirs []string, l, dep core.BuildLabel, vis []core.BuildLabel) {
-	defer flush(false)
 	dt := core.NewBuildTarget(dep)
 	dt.Visibility = vis
 	got := l.CanSee(state, dt)
 	in := map[string]any{"kind": "cansee", "experimental_dirs": dirs, "label": js(l), "dep": js(dep), "visibility": jsl(vis), "visible": got}
-	c.Case(lib.App("CCanSee", lib.StrList(dirs), coqLabel(l), coqLabel(dep), coqLabels(vis), lib.Bool(got)), in,
+	emit(c, "cansee", 6, lib.App("CCanSee", lib.StrList(dirs), coqLabel(l), coqLabel(dep), coqLabels(vis), lib.Bool(got)), in,
 		fmt.Sprint("cs", dirs, l, dep, vis), l.PackageName != dep.PackageName)
 	c.Oracle()
 	expL, expD := docExperimental(dirs, l), docExperimental(dirs, dep)
@@ -739,7 +774,7 @@ func main() {
 		ncheap := 0
 		flush = func(all bool) {
 			ncheap++
-			if (all || ncheap%8 == 0) && len(pending) > 0 {
+			if (all || ncheap%2 == 0) && len(pending) > 0 {
 				n := 1
 				if all {
 					n = len(pending)
@@ -791,10 +826,9 @@ func main() {
 		ls = append(ls, core.BuildLabel{}, core.OriginalTarget)
 		for _, l := range ls {
 			p := l.String()
-			c.Case(lib.App("CPrint", coqLabel(l), lib.Str(p)), map[string]any{"kind": "print", "label": js(l), "printed": p}, "print "+fmt.Sprintf("%q", l), l.Subrepo != "" || l.Name == "...")
-			flush(false)
+			emit(c, "print", 20, lib.App("CPrint", coqLabel(l), lib.Str(p)), map[string]any{"kind": "print", "label": js(l), "printed": p}, "print "+fmt.Sprintf("%q", l), l.Subrepo != "" || l.Name == "...")
 			pl := l.Parent()
-			c.Case(lib.App("CParent", coqLabel(l), coqLabel(pl)), map[string]any{"kind": "parent", "label": js(l), "parent": js(pl)}, "parent "+fmt.Sprintf("%q", l), pl != l)
+			emit(c, "print", 20, lib.App("CParent", coqLabel(l), coqLabel(pl)), map[string]any{"kind": "parent", "label": js(l), "parent": js(pl)}, "parent "+fmt.Sprintf("%q", l), pl != l)
 		}
 
 		// --- 2. selection over package trees
@@ -863,6 +897,9 @@ func main() {
 			}
 
 			expandCase(c, expandState, tree, r)
+		}
+		for _, k := range []string{"parse", "sandbox", "cansee", "print"} {
+			closeBatch(c, k)
 		}
 		flush(true)
 	})
